@@ -376,6 +376,21 @@ def run(chk):
 		if n == 0:
 			continue   # zero-row tables have no columns to operate on in a defined way
 		chk.case("table_arith", {"opname": opname, "cols": cols, "names": names, "other": other}, "table-arith")
+	# twin columns: same dtype, equal except where their values merely collide under hash() (-1 / -2, k and k + 2**61-1): still column by column
+	P = 2 ** 61 - 1
+	for _ in range(60 if chk.quick() else 400):
+		n = rng.choice([1, 2, 4])
+		kind = rng.choice(["int", "float"])
+		base = [rng.choice([-1, 3, 0, 5, -1]) for _ in range(n)]
+		base[rng.randrange(n)] = -1
+		twin = [(-2 if x == -1 else (x + P if kind == "int" and rng.random() < 0.5 else x)) for x in base]
+		if kind == "float":
+			base, twin = [float(x) for x in base], [float(x) for x in twin]
+		cols = [base, twin] if rng.random() < 0.5 else [twin, base]
+		if rng.random() < 0.4:
+			cols.append(list(base))
+		opname = rng.choice(["add", "sub", "mul", "truediv", "floordiv", "mod"])
+		chk.case("table_arith", {"opname": opname, "cols": cols, "names": [rng.choice(["a", "b", None]) for _ in cols], "other": rng.choice([2, 0.5, 3, 7])}, "table-arith-twins")
 	# method broadcasting
 	table = method_table()
 	chk.counters["broadcast_methods_enumerated"] = len(table)
@@ -392,6 +407,17 @@ def run(chk):
 						if size == 1:
 							continue
 					chk.case("method", {"kind": kname, "name": name, "args": args, "values": vals}, "method-" + kname)
+	# vectors whose kind was widened by inference keep their narrower elements (a float vector holding ints, an int vector holding bools): the
+	# method is still the element's own
+	for i, (kname, name, args) in enumerate(table):
+		if kname not in ("float", "int"):
+			continue
+		for size in (2, 5):
+			mix = [1, 2.5, -3, 0.5, 7, 0] if kname == "float" else [True, 2, False, -7, 255]
+			vals = [mix[0], mix[1]] + [rng.choice(mix) for _ in range(size - 2)]
+			rng.shuffle(vals)
+			vals = common.apply_none(rng, vals, rng.choice(["none", "low"]))
+			chk.case("method", {"kind": kname + "-mixed", "name": name, "args": args, "values": vals}, "method-mixed")
 	for name in ("before", "after", "before_last", "after_last"):
 		for size in (1, 3, 40):
 			for sep in ("-", "ab", " "):
